@@ -5,6 +5,7 @@ import (
 	"encoding/binary"
 
 	"github.com/skycoin/skycoin/src/cipher"
+	"github.com/skycoin/skycoin/src/cipher/encoder"
 )
 
 // C09 — Transaction.verify accepts exactly the documented rule set; decoding is canonical.
@@ -140,4 +141,46 @@ func vpH_C09_DecodeCanonical() {
 	vpAssert(err2 == nil, "decoded_transaction_serializes")
 	vpAssert(bytes.Equal(out, buf), "reencoding_gives_the_same_bytes")
 	vpReach("accepted")
+}
+
+// Element-count limits of the transaction codec: a length prefix above 65535
+// on the signature, input or output array is refused as such
+// (ErrMaxLenExceeded) when that many bytes follow, and as a buffer underflow
+// otherwise, by decoder and encoder alike.
+//
+//vp:prop C09 C21
+//vp:bounds one of the three arrays (the earlier ones empty) carries a free 32-bit length prefix above 65535, followed by 65540 zero bytes; encoder side: the array has 65536 elements
+//vp:maxvalues 8
+//vp:unwind 70000
+func vpH_C09_ArrayLimit() {
+	which := vpLen("array", 0, 2)
+	count := vpU32("count")
+	vpAssume(count > 65535)
+	const tail = 65540
+	buf := make([]byte, 37+4*which+4+tail)
+	for i := 0; i < 37; i++ {
+		buf[i] = vpU8("header")
+	}
+	binary.LittleEndian.PutUint32(buf[37+4*which:], count)
+	var txn Transaction
+	_, err := decodeTransaction(buf, &txn)
+	if count > tail {
+		vpAssert(err == encoder.ErrBufferUnderflow, "length_beyond_the_buffer_is_an_underflow")
+	} else {
+		vpAssert(err == encoder.ErrMaxLenExceeded, "length_above_the_limit_is_refused_as_too_long")
+	}
+	_, err = DeserializeTransaction(buf)
+	vpAssert(err != nil, "length_above_the_limit_does_not_decode")
+
+	var big Transaction
+	switch which {
+	case 0:
+		big.Sigs = make([]cipher.Sig, 65536)
+	case 1:
+		big.In = make([]cipher.SHA256, 65536)
+	case 2:
+		big.Out = make([]TransactionOutput, 65536)
+	}
+	_, eerr := encodeTransaction(&big)
+	vpAssert(eerr == encoder.ErrMaxLenExceeded, "encoder_refuses_above_the_limit")
 }
